@@ -51,6 +51,18 @@ CHECKS = {
    text="Decides the name-level necessary conditions of decoding: tag sets of both message enums equal the documented ones, both are tagged by 'type', no accepted wire name is snake_case or capitalised, the state record accepts the clock/increment/status/moves keys. Does not decide value decoding, escapes or optional-field behaviour.",
    note="Trusted: rustc const evaluation, serde_derive's convention of emitting FIELDS/VARIANTS, the spec table quoted from the property statement.",
    ref="4/C19"),
+ "C04": dict(
+   level="proof",
+   technique="static analysis: index expression extracted from MIR (callees inlined), compiled and folded over the compiler-evaluated table constants for every subset of every mask (constant propagation, exhaustive); call-site inventory of unchecked lookups with provenance analysis",
+   text="Complete enumeration of the finite space the property names: all 102,400 rook and 5,248 bishop blocker configurations and all 4x64 leaper entries, evaluated with the index expression taken from the code itself, compared with a ray/step geometry oracle; index < table length for every configuration; mask covers the relevant blockers (so the reduction from 2^64 occupancies is lossless); every call site of the unchecked lookups has a re-derived, reviewed provenance for its square argument. No program input or runtime state is involved: this is constant folding over source constants.",
+   note="Trusted base: rustc const evaluation + MIR, the constant decoder, the tree inliner/compiler (cross-checked against the generic folder), the 40-line geometry oracle. Assumes both kings exist at the king-square call site (legal positions).",
+   ref="4/C04"),
+ "C11": dict(
+   level="proof",
+   technique="static analysis: exhaustive comparison of compiler-evaluated piece-square tables, full truth-table enumeration of game_stage from MIR paths, affine-form comparison of the terminal scores",
+   text="Finite and complete for the static evaluation: all 3x6x64 + 2x6x64 table entries satisfy B[s][p][sq^56] = -W[s][p][sq]; white/black are paired with the two tables at the same stage and each piece with its row; game_stage's truth table (2^4 rows) is invariant under swapping the players; the material term is f(white) - f(black); the two mate scores are exact negations, affine in the move number with the sign that prefers nearer mates; the colour factor folds to +1/-1. Search-score symmetry is not decided.",
+   note="Trusted base: rustc const evaluation + MIR, the extractor, the path enumerator and affine evaluator. Assumes PlayerState accessors are colour-blind (they take one PlayerState).",
+   ref="4/C11"),
 }
 NOT_APPLICABLE = {
  "C17": "PGN tokenisation under arbitrary read fragmentation is decided by runtime bytes; the only structural clause in reach (buffer read only behind ensure_buffer) is too weak to stand for the property (DESIGN.md section 1).",
